@@ -505,6 +505,7 @@ func checkC18(c *Ctx) {
 		json.Unmarshal([]byte(ev), &rec)
 		c.Fail(Finding{Sig: "objects-" + res.Violated, Input: rec.Side + "|" + rec.Key + rec.File, What: fmt.Sprintf("law %s of ObjectsTrace.tla fails (%s %s%s): %s", res.Violated, rec.Side, rec.Key, rec.File, truncate(ev, 600)), Replay: it.Replay})
 	})
+	c18Cyclic(c)
 	c.Set("rule", "case = the identifier/object/scope graph of one corpus file before and after decoration, and after restoration with Extras; or one multi-file package built with ast.NewPackage vs dst.NewPackage; non-trivial = the file has objects / the package has reports; distinct by file + side")
 }
 
@@ -528,5 +529,128 @@ func init() {
 			out += "law " + res.Violated + " of ObjectsTrace.tla fails: " + truncate(offendingEvent(it, res), 600)
 		})
 		return out
+	}
+}
+
+// c18Cyclic: a package decorated as a whole (DecorateNode on *ast.Package) whose scope chain is cyclic
+// through an object: the universe holds a package object whose Data is the package scope itself
+// (scope -> Outer -> object -> Data -> same scope). The conversion memoises scopes; every ast scope must
+// get exactly one dst scope, with Outer, members and Data links carried over.
+func c18Cyclic(c *Ctx) {
+	srcs := map[string]string{
+		"a.go": "package p\n\nvar A = B + 1\n\nfunc F() int { return A }\n",
+		"b.go": "package p\n\nvar B = 2\n\ntype T struct{ next *T }\n",
+	}
+	for _, variant := range []string{"data-cycle", "decl-cycle", "no-cycle"} {
+		key := "cyclic-scopes|" + variant
+		fset := token.NewFileSet()
+		files := map[string]*ast.File{}
+		for n, s := range srcs {
+			f, err := parser.ParseFile(fset, n, s, parser.ParseComments)
+			if err != nil {
+				c.Infra(err.Error())
+				return
+			}
+			files[n] = f
+		}
+		universe := ast.NewScope(nil)
+		for _, n := range []string{"int", "string"} {
+			universe.Insert(ast.NewObj(ast.Typ, n))
+		}
+		ap, _ := ast.NewPackage(fset, files, nil, universe)
+		if ap == nil {
+			c.Infra("ast.NewPackage returned nil")
+			return
+		}
+		po := ast.NewObj(ast.Pkg, "p")
+		switch variant {
+		case "data-cycle":
+			po.Data = ap.Scope
+		case "decl-cycle":
+			po.Decl = ap.Scope
+		}
+		universe.Insert(po)
+		c.Eval(key, variant != "no-cycle")
+		d := decorator.NewDecorator(fset)
+		var derr error
+		if msg := guard(func() { _, derr = d.DecorateNode(ap) }); msg != "" || derr != nil {
+			c.Fail(Finding{Sig: "objects-decorate-package-fails", Input: key, What: fmt.Sprintf("%s %v", msg, derr), Replay: obj{"kind": "none"}})
+			continue
+		}
+		// every ast scope reachable from the package scope
+		var scopes []*ast.Scope
+		seen := map[*ast.Scope]bool{}
+		var visit func(s *ast.Scope)
+		visit = func(s *ast.Scope) {
+			if s == nil || seen[s] {
+				return
+			}
+			seen[s] = true
+			scopes = append(scopes, s)
+			visit(s.Outer)
+			for _, o := range s.Objects {
+				if ds, ok := o.Data.(*ast.Scope); ok {
+					visit(ds)
+				}
+				if ds, ok := o.Decl.(*ast.Scope); ok {
+					visit(ds)
+				}
+			}
+		}
+		visit(ap.Scope)
+		fail := func(what string) {
+			c.Fail(Finding{Sig: "objects-scope-graph", Input: key, What: key + ": " + what, Replay: obj{"kind": "none"}})
+		}
+		// one dst scope per ast scope, maps mutually inverse
+		back := map[*ast.Scope]int{}
+		for _, as := range d.Ast.Scopes {
+			back[as]++
+		}
+		bad := false
+		for _, s := range scopes {
+			ds := d.Dst.Scopes[s]
+			switch {
+			case ds == nil:
+				fail("an ast scope has no dst counterpart")
+				bad = true
+			case back[s] != 1:
+				fail(fmt.Sprintf("%d dst scopes map back to one ast scope", back[s]))
+				bad = true
+			case d.Ast.Scopes[ds] != s:
+				fail("Dst.Scopes and Ast.Scopes are not inverse")
+				bad = true
+			case (s.Outer == nil) != (ds.Outer == nil) || (s.Outer != nil && d.Dst.Scopes[s.Outer] != ds.Outer):
+				fail("Outer link not carried over")
+				bad = true
+			}
+			if bad {
+				break
+			}
+			for name, o := range s.Objects {
+				do := ds.Objects[name]
+				if do == nil || d.Dst.Objects[o] != do {
+					fail("scope member " + name + " not carried over")
+					bad = true
+					break
+				}
+				if sc, ok := o.Data.(*ast.Scope); ok {
+					if dd, ok := do.Data.(*dst.Scope); !ok || dd != d.Dst.Scopes[sc] {
+						fail("the Data scope of object " + name + " is not the decorated counterpart of its ast scope")
+						bad = true
+						break
+					}
+				}
+				if sc, ok := o.Decl.(*ast.Scope); ok {
+					if dd, ok := do.Decl.(*dst.Scope); !ok || dd != d.Dst.Scopes[sc] {
+						fail("the Decl scope of object " + name + " is not the decorated counterpart of its ast scope")
+						bad = true
+						break
+					}
+				}
+			}
+			if bad {
+				break
+			}
+		}
 	}
 }
